@@ -84,10 +84,13 @@ func (g *cacheReqGenerator) GenerateRequests(ctx context.Context, r *scan.Range)
 	go func() {
 		defer close(result)
 		for request := range requests {
-			if mac := g.getMAC(request.DstIP); mac != nil {
-				request.DstMAC = mac
-			} else {
-				request.Err = fmt.Errorf("no destination MAC address for %s", request.DstIP)
+			// an already failed request has no destination to resolve: keep its error
+			if request.Err == nil {
+				if mac := g.getMAC(request.DstIP); mac != nil {
+					request.DstMAC = mac
+				} else {
+					request.Err = fmt.Errorf("no destination MAC address for %s", request.DstIP)
+				}
 			}
 			result <- request
 		}
